@@ -12,7 +12,8 @@ def check(rep):
     ER.rule_choice_search(ctx, rid="C16.SHARED-TAIL", parts=("prefix", "clamp"))
     ER.rule_random_guarded(ctx, rid="C16.RANDOM-DELEGATES")
     ER.rule_retained_arguments(ctx, rid="C16.NO-RETAINED-ARGUMENT", modules={"binning/binning.py"})
-    ER.rule_value_keyed_caches(ctx, rid="C16.NO-VALUE-KEYED-CACHE", modules={"binning/binning.py"})
+    ER.rule_value_keyed_caches(ctx, rid="C16.NO-VALUE-KEYED-CACHE", modules={"binning/binning.py"},
+                               functions={"deterministic_choice", "deterministic_proba"})
     rep.assume("NOT decided: floor(u*n) == bisect on equal integer weights in floating point")
     rep.assume("random.choices' own contract (never a zero-weight item) is trusted")
     return ("Parameters never mutated (alias-aware); every return is an element read of the population or random.choices(...)[0] "
